@@ -119,6 +119,17 @@ enum Op {
 	Info { s: usize },
 	Debug { s: usize },
 	DebugPar { s: usize },
+	HDe { s: usize, target: HTarget, bytes: Vec<u8>, depth: usize },
+}
+
+/// what `hde` decodes into
+#[derive(Clone, Copy, Debug)]
+enum HTarget {
+	OptIgnored,
+	OptString,
+	OptLong,
+	OptUnit,
+	Ignored,
 }
 
 struct History {
@@ -391,6 +402,18 @@ fn parse_ops(
 			"debugpar" => {
 				let a = args_n("debugpar", a, 1)?;
 				Op::DebugPar { s: slot(&a[0])? }
+			}
+			"hde" => {
+				let a = args_n("hde", a, 4)?;
+				let target = match a[1].atom()? {
+					"optignored" => HTarget::OptIgnored,
+					"optstring" => HTarget::OptString,
+					"optlong" => HTarget::OptLong,
+					"optunit" => HTarget::OptUnit,
+					"ignored" => HTarget::Ignored,
+					other => return Err(format!("hde: unknown target {other}")),
+				};
+				Op::HDe { s: slot(&a[0])?, target, bytes: a[2].bytes()?, depth: a[3].int::<usize>()? }
 			}
 			other => return Err(format!("unknown op {other}")),
 		});
@@ -1260,6 +1283,28 @@ impl<'f> Interp<'f, '_> {
 					return "(debug UNSTABLE)".into();
 				}
 				format!("(debug {} {} x{:016x})", a.len(), e.len(), fnv1a64(a.as_bytes()) ^ fnv1a64(e.as_bytes()))
+			}),
+			// arbitrary (hostile) datum bytes decoded under the slot's schema into Option<_> / IgnoredAny with a depth budget:
+			// Ok or a clean Err, never a fault
+			Op::HDe { s, target, ref bytes, depth } => self.with_schema(s, |schema| {
+				use serde::Deserialize;
+				let mut cfg = DeserializerConfig::new(schema);
+				cfg.allowed_depth = depth;
+				let mut st = DeserializerState::with_config(SliceRead::new(bytes), cfg);
+				let r: Result<&'static str, DeError> = match target {
+					HTarget::OptIgnored => Option::<serde::de::IgnoredAny>::deserialize(st.deserializer()).map(|o| if o.is_some() { "some" } else { "none" }),
+					HTarget::OptString => Option::<String>::deserialize(st.deserializer()).map(|o| if o.is_some() { "some" } else { "none" }),
+					HTarget::OptLong => Option::<i64>::deserialize(st.deserializer()).map(|o| if o.is_some() { "some" } else { "none" }),
+					HTarget::OptUnit => Option::<()>::deserialize(st.deserializer()).map(|o| if o.is_some() { "some" } else { "none" }),
+					HTarget::Ignored => serde::de::IgnoredAny::deserialize(st.deserializer()).map(|_| "ok"),
+				};
+				match r {
+					Ok(t) => format!("(hde {t})"),
+					Err(e) => {
+						eprintln!("  hde: {e}");
+						"(hde err)".into()
+					}
+				}
 			}),
 			// one thread is INSIDE a rendering of the schema (parked in its sink at the first write) while this thread renders the
 			// schema and produces a serialization error message: every text must be the one sequential use gives
